@@ -101,8 +101,15 @@ def plan(tier):
                 "through translate_address() with a whole-snapshot comparison and a subset through LDR/STR/LDRT/STRT",
         "bounds": {"N": list(n_list(tier)), "pid": [0, 5], "domains": [0, 5, 15], "ap": "0..7", "dacr_field": "0..3",
                    "attrs": ["tex=%d c=%d b=%d s=%d ng=%d xn=%d ns=%d pxn=%d" % a for a in ATTRS],
-                   "quick_diagonals": "quick tier: domain and attribute alphabet are rotated over the product instead of "
-                                      "multiplied in; instruction-driven part uses N in {0,1,7}",
+                   "quick_diagonals": "quick tier: domain, attribute alphabet, PRRR variant (and SCR.NS = 0) are rotated over "
+                                      "the main product by a fixed diagonal instead of multiplied in (thorough: domain x "
+                                      "SCR.NS multiplied in); the word before/after the unit is queried for AP=0b011 and the "
+                                      "fault descriptors; instruction-driven part uses N in {0,1,7}",
+                   "configurations": {"sec": "main product + all sub-products", "nosec / lpae": "PD, attribute, hook "
+                                      "sub-products and a permission product with a reduced address alphabet"},
+                   "hang_guard": "a translate_address() call that uses more than %.2f s of CPU time is reported as "
+                                 "does-not-terminate; after two hangs at one Long-descriptor site the remaining cases of "
+                                 "that site are skipped in the shard (counter ld-cases-skipped-...)" % HANG_S,
                    "long_descriptor": "T0SZ 0..7 x T1SZ {0,1,2,5} x VA alphabet x {level-1 block, level-2 block, "
                                       "level-3 page, invalid at each level} x AF x AP<2:1> x APTable x NS/NSTable"},
         "exhaustive": True,
@@ -346,7 +353,7 @@ def mismatch(ctx, exp, got, pre, post_regs, mem_same, write):
         if e.attrs is not None:
             if got[3]["type"] != e.attrs["type"]:
                 return ("memory-type", "expected %s got %s" % (e.attrs["type"], got[3]["type"]))
-            if got[3] != e.attrs:
+            if any(got[3].get(k) != v for k, v in e.attrs.items()):      # only what the model specifies
                 return ("memory-attributes", "expected %r got %r" % (e.attrs, got[3]))
         if post_regs != pre_regs or not mem_same:
             return ("state-changed", machine.fmt_diff(ctx.plan.diff((pre_regs, ()), (post_regs, ()))) or "memory")
